@@ -117,9 +117,14 @@ inductive Op
   | origin (lf : Nat) (sn : Option PStr) (name : PStr) (oref : Option Int) (out : Outcome)
   deriving Repr, DecidableEq
 
+/-- `EFLRSetsDict.get_or_make_set`: an empty set name is no name (such a set is written without one) -/
+def normName : Option PStr → Option PStr
+  | some [] => none
+  | x => x
+
 def step (w : World) : Op → World
-  | .item lf kind sn name oref out => if kind = 0 then w else addItem w lf kind sn name oref out
-  | .origin lf sn name oref out => (addOrigin w lf sn name oref out).1
+  | .item lf kind sn name oref out => if kind = 0 then w else addItem w lf kind (normName sn) name oref out
+  | .origin lf sn name oref out => (addOrigin w lf (normName sn) name oref out).1
 
 def run (w : World) (ops : List Op) : World := ops.foldl step w
 
